@@ -13,6 +13,10 @@ Proved here (attribute lists of any length):
 * `roundtrip` — reading back what was written returns exactly the original values, provided every
   elided position (value 0, not explicit) has dialect default 0;
 * `roundtrip_all_explicit` — with all values explicit nothing is elided: unconditional round trip;
+* `last_kept_writes_all` / `explicit_last_zero_written` — when the last parameter is explicit or not
+  zero every parameter is written; an explicit zero in last position is written whatever precedes it;
+* `remarshal_same_bytes` — under the hypothesis of `roundtrip`, writing what was read back gives the
+  same attribute list as the first writing;
 * `pinned_loses_explicit_zero` — on the pinned tree an explicit zero in last position was elided and
   read back as the dialect's default (timestamp(0) -> timestamp = timestamp(6)).
 
@@ -126,5 +130,47 @@ theorem pinned_loses_explicit_zero :
 example : toAttrs [(10, false), (0, false)] = [10] ∧ fromAttrs [10, 0] [10] = [10, 0] := by decide
 /-- a zero in the middle is kept when something follows. -/
 example : toAttrs [(0, false), (2, false)] = [0, 2] := by decide
+
+/-- **last_kept_writes_all**: when the last parameter is explicit or not zero, nothing is elided —
+every parameter is written (lists of any length). -/
+theorem last_kept_writes_all : ∀ (vals : List AttrVal) (h : vals ≠ []),
+    ¬ ((vals.getLast h).1 = 0 ∧ (vals.getLast h).2 = false) → toAttrs vals = vals.map (·.1) := by
+  intro vals
+  unfold toAttrs
+  induction vals with
+  | nil => intro h; exact absurd rfl h
+  | cons x xs ih =>
+    intro _ hl
+    cases xs with
+    | nil =>
+      simp only [List.getLast_singleton] at hl
+      simp [dropTrailing, hl]
+    | cons y ys =>
+      have hne : y :: ys ≠ [] := by simp
+      rw [List.getLast_cons hne] at hl
+      have := ih hne hl
+      unfold dropTrailing
+      rw [this]
+      simp
+
+/-- an explicit zero in last position is written (the repaired rule), whatever precedes it. -/
+theorem explicit_last_zero_written (pre : List AttrVal) :
+    toAttrs (pre ++ [(0, true)]) = pre.map (·.1) ++ [0] := by
+  have := last_kept_writes_all (pre ++ [(0, true)]) (by simp) (by simp)
+  simpa using this
+
+/-- **remarshal_same_bytes**: under the hypothesis of `roundtrip`, writing what was read back (with
+the explicitness the reader restores) gives the same attribute list as the first writing. -/
+theorem remarshal_same_bytes (vals : List AttrVal) (defaults : List Nat) (hl : defaults.length = vals.length)
+    (hd : ∀ i : Nat, vals[i]? = some (0, false) → defaults[i]? = some 0) :
+    toAttrs ((fromAttrs defaults (toAttrs vals)).zip (vals.map (·.2))) = toAttrs vals := by
+  rw [roundtrip vals defaults hl hd]
+  congr 1
+  clear hl hd
+  induction vals with
+  | nil => rfl
+  | cons v vs ih => simp [ih]
+
+example : toAttrs [(3, false), (0, true)] = [3, 0] := by decide
 
 end Props.C15
